@@ -63,6 +63,9 @@ def shards(tier):
                     "n": 60 if tier == "quick" else 600, "crash_is_violation": True})
         out.append({"label": variant + "-random", "variant": variant, "kind": "random",
                     "n": 600 if tier == "quick" else 8000, "crash_is_violation": True})
+        out.append({"label": variant + "-steps", "variant": variant, "kind": "steps",
+                    "targets": [2 ** 12, 2 ** 16, 2 ** 20, 2 ** 24] if tier == "quick" else [2 ** 10, 2 ** 12, 2 ** 15, 2 ** 16, 2 ** 20, 2 ** 22, 2 ** 24, 2 ** 25],
+                    "crash_is_violation": True})
         out.append({"label": variant + "-threads", "variant": variant, "kind": "threads",
                     "n": 2 if tier == "quick" else 12, "crash_is_violation": True})
     return out
@@ -223,6 +226,76 @@ def run_pair(ctx, g, so, a, b, sa, sb, pl, pr):
                                   "%s returned %r: buffer words that are not elements of the operands were read" % (name, [hex(v) for v in leaked[:3]]), case)
 
 
+def steps_pair(target, delta, common_last, short_len=3):
+    """Operands whose two-pointer merge uses up the short one on exactly step `target + delta` (steps counted as a
+    textbook merge does: one per element consumed, a common element consuming both at once): a loop that works
+    in blocks of 2^k steps meets its block boundary and the end of an operand at the same moment."""
+    steps = target + delta
+    p = steps - short_len + (0 if not common_last else 0)
+    # long: the even numbers; short: odd numbers 1, 3, ... and a last element just above the p-th even number
+    long_ = numpy.arange(0, 2 * (p + 5), 2, dtype=numpy.uint64).astype(U32)
+    last = 2 * p if common_last else 2 * p - 1
+    short = numpy.array([2 * i + 1 for i in range(short_len - 1)] + [last], dtype=U32)
+    return long_, short
+
+
+# (NumPy's sort-based set routines need 20 s for 2^24 elements; the operands are sorted and unique, so membership
+# tests and one insertion say the same)
+def _ref_intersect(a, b):
+    return a[numpy.isin(a, b)] if len(a) <= len(b) else b[numpy.isin(b, a)]
+
+
+def _ref_difference(a, b):
+    return a[~numpy.isin(a, b)]
+
+
+def _ref_union(a, b):
+    long_, short = (a, b) if len(a) >= len(b) else (b, a)
+    extra = short[~numpy.isin(short, long_)]
+    return numpy.insert(long_, numpy.searchsorted(long_, extra), extra)
+
+
+def in_buffer(a, fill):
+    big = numpy.full(len(a) + 24, fill, dtype=U32)
+    big[7:7 + len(a)] = a
+    return big[7:7 + len(a)]
+
+
+def steps_shard(ctx, g, so, targets):
+    for target in targets:
+        for delta in (-1, 0, 1):
+            for common_last in (False, True):
+                long_, short = steps_pair(target, delta, common_last)
+                # behind each operand (inside its base buffer) lies a word that IS an element of the other operand:
+                # a read one past the end changes the result; the bounds-checked build refuses it outright
+                lv, sv = in_buffer(long_, int(short[0])), in_buffer(short, int(long_[-1]))
+                for a, b, order in ((lv, sv, "long/short"), (sv, lv, "short/long")):
+                    ctx.count("class:operand_used_up_on_step_2^k%+d" % delta)
+                    for name, fn, ref in (("intersect", so.set_intersect_merge_np, _ref_intersect),
+                                          ("union", so.set_union_merge_np, _ref_union),
+                                          ("difference", so.set_difference_merge_np, _ref_difference)):
+                        case = {"op": "steps", "kernel": name, "target": target, "delta": delta, "common_last": common_last, "order": order}
+                        res = g.call("kernel_calls", fn, (a, b), case, True, ("steps", name, target, delta, common_last, order))
+                        if res is None:
+                            continue
+                        exp = ref(a, b)
+                        if len(res) != len(exp) or not numpy.array_equal(res, exp):
+                            ctx.count("wrong_result_seen(C08's business)")
+                            got = numpy.asarray(res)
+                            foreign = got[~numpy.isin(got, a) & ~numpy.isin(got, b)]
+                            extra = got[~numpy.isin(got, exp)]
+                            if len(foreign) or len(extra):
+                                # with these operands the only way to an element that does not belong in the result is the
+                                # word behind an operand
+                                ctx.violation("read-outside-input:word-behind-operand:%s:%s" % (name, order),
+                                              "%s on operands used up on step %d%+d returned %d elements (expected %d), among them %r "
+                                              "which can only come from the word behind an operand"
+                                              % (name, target, delta, len(got), len(exp), [int(v) for v in (list(foreign) + list(extra))[:3]]), case)
+                if ctx.full():
+                    return
+    ctx.sample({"targets": targets, "note": "operands used up on step 2^k-1, 2^k, 2^k+1 of the merge"})
+
+
 def judge(ctx, case):
     """Replay one recorded case."""
     import catii.set_operations as so
@@ -237,6 +310,9 @@ def judge(ctx, case):
         return
     if case.get("op") == "threads":
         threads_case(ctx, g, so, case)
+        return
+    if case.get("op") == "steps":
+        steps_shard(ctx, g, so, [case["target"]])
         return
     a = present(numpy.asarray(case["a"], dtype=U32).tolist(), case.get("pl", "own"), ctx.rng)
     b = present(numpy.asarray(case["b"], dtype=U32).tolist(), case.get("pr", "own"), ctx.rng)
@@ -311,6 +387,8 @@ def run_shard(ctx):
             run_pair(ctx, g, so, a2, b2, set(a.tolist()), set(b.tolist()), pl, pr)
             if ctx.full():
                 return
+    elif kind == "steps":
+        steps_shard(ctx, g, so, s["targets"])
     elif kind == "many":
         top = 2 ** 32 - 1
         for n in range(s["n"]):
